@@ -206,6 +206,77 @@ static QSbasis *warm_basis(const Model &m, const Op &w, int route, Result &r) {
 }
 
 // checks shared by all four properties on one solve outcome
+// The gate every OPTIMAL / INFEASIBLE answer of the exact driver passes through is itself callable:
+// QSexact_optimal_test(p, x, y, basis) and QSexact_infeasible_test(p, y).  Whatever they ACCEPT must be a
+// certificate for the independent checkers too.  They are fed the solver's own vectors and small perturbations
+// of them (one structural value, one logical value, one multiplier, all-zero / negated multipliers), each on a
+// fresh copy of the problem because the tests install what they accept.
+static void probe_optimal_test(const Model &m, mpq_QSprob p, const Solution &acc, Result &r) {
+  int n = m.n(), mm = m.m();
+  if (n == 0 || mm == 0 || (int)acc.x.size() < n || (int)acc.slack.size() < mm || (int)acc.pi.size() < mm) return;
+  QSbasis *B = mpq_QSget_basis(p);
+  if (!B) { r.label("optimal-test:no-basis"); return; }
+  uint64_t h = fnv64(qstr(acc.value) + ":" + std::to_string(n * 131 + mm));
+  for (int kind = 0; kind < 5 && r.verdict == PASS; kind++) {
+    std::vector<Q> x(acc.x.begin(), acc.x.begin() + n), sl(acc.slack.begin(), acc.slack.begin() + mm), y(acc.pi.begin(), acc.pi.begin() + mm);
+    const char *kn = "own";
+    switch (kind) {
+    case 1: x[h % (uint64_t)n] += (h >> 8) & 1 ? Q(1) : Q(1, 1000000); kn = "x-perturbed"; break;
+    case 2: sl[(h >> 16) % (uint64_t)mm] += (h >> 9) & 1 ? Q(1) : Q(-1, 1000); kn = "slack-perturbed"; break;
+    case 3: y[(h >> 24) % (uint64_t)mm] += (h >> 10) & 1 ? Q(1) : Q(-1, 7); kn = "pi-perturbed"; break;
+    case 4: for (auto &v : y) v = 0; kn = "pi-zero"; break;
+    default: break;
+    }
+    mpq_QSprob q = mpq_QScopy_prob(p, "probe");
+    if (!q) break;
+    QArr xa(n + mm), ya(mm);
+    for (int j = 0; j < n; j++) xa.set(j, x[j]);
+    for (int i = 0; i < mm; i++) { xa.set(n + i, sl[i]); ya.set(i, y[i]); }
+    int acc_rc = QSexact_optimal_test(q, xa.v, ya.v, B);
+    QSexact_set_precision(128);
+    if (acc_rc == 1) {
+      // the test may have repaired the primal vector in place: judge what it accepted
+      std::vector<Q> x2, y2;
+      for (int j = 0; j < n; j++) x2.push_back(xa.get(j));
+      for (int i = 0; i < mm; i++) y2.push_back(ya.get(i));
+      std::string why;
+      r.label(std::string("optimal-test:accepts:") + kn);
+      if (!verify_optimal(m, x2, y2, nullptr, &why))
+        r.fail(std::string("optimal-test-accepts-non-certificate:") + kn, std::string("QSexact_optimal_test accepted (x, pi) [") + kn + "] that is not an optimality certificate: " + why);
+    } else r.label(std::string("optimal-test:rejects:") + kn);
+    mpq_QSfree_prob(q);
+  }
+  mpq_QSfree_basis(B);
+}
+static void probe_infeasible_test(const Model &m, mpq_QSprob p, const std::vector<Q> &y0, Result &r) {
+  int mm = m.m();
+  if (mm == 0 || (int)y0.size() < mm) return;
+  uint64_t h = fnv64(std::to_string(mm * 977 + m.n()) + qstr(y0[0]));
+  for (int kind = 0; kind < 4 && r.verdict == PASS; kind++) {
+    std::vector<Q> y(y0.begin(), y0.begin() + mm);
+    const char *kn = "own";
+    switch (kind) {
+    case 1: y[h % (uint64_t)mm] += (h >> 8) & 1 ? Q(1) : Q(-1); kn = "one-perturbed"; break;
+    case 2: for (auto &v : y) v = 0; kn = "zero"; break;
+    case 3: { size_t i = (h >> 16) % (uint64_t)mm; y[i] = -y[i] * 3; kn = "one-negated"; break; }
+    default: break;
+    }
+    mpq_QSprob q = mpq_QScopy_prob(p, "probe");
+    if (!q) break;
+    QArr ya(mm);
+    for (int i = 0; i < mm; i++) ya.set(i, y[i]);
+    int acc_rc = QSexact_infeasible_test(q, ya.v);
+    QSexact_set_precision(128);
+    if (acc_rc != 0) {
+      std::string why;
+      r.label(std::string("infeasible-test:accepts:") + kn);
+      if (!verify_farkas(m, y, &why))
+        r.fail(std::string("infeasible-test-accepts-non-certificate:") + kn, std::string("QSexact_infeasible_test accepted multipliers [") + kn + "] that prove nothing: " + why);
+    } else r.label(std::string("infeasible-test:rejects:") + kn);
+    mpq_QSfree_prob(q);
+  }
+}
+
 static void judge(const char *prop, const Model &m, const SolveCfg &cfg, mpq_QSprob p, SolveOutcome &so,
                   int truth, const Q &truth_value, Result &r) {
   Solution &s = so.s;
@@ -234,6 +305,7 @@ static void judge(const char *prop, const Model &m, const SolveCfg &cfg, mpq_QSp
     if (!check_solution(m, acc, &sig, &why)) { r.fail(sig + ":" + tag, tag + " [" + cfg.str() + "] reported OPTIMAL but the certificate fails: " + why); return; }
     if (truth == T_OPTIMAL && acc.value != truth_value) { r.fail("value-vs-truth:" + tag, "certified value " + qstr(acc.value) + " differs from the reference optimum " + qstr(truth_value)); return; }
     if (truth == T_INFEASIBLE || truth == T_UNBOUNDED) { r.fail("status-vs-truth:" + tag, std::string("OPTIMAL reported although the reference proves ") + (truth == T_INFEASIBLE ? "INFEASIBLE" : "UNBOUNDED")); return; }
+    if (std::string(prop) == "C01") probe_optimal_test(m, p, acc, r);
   } else if (std::string(prop) == "C01") {
     // C01 speaks about OPTIMAL answers only
   } else if (s.status == QS_LP_INFEASIBLE) {
@@ -250,6 +322,7 @@ static void judge(const char *prop, const Model &m, const SolveCfg &cfg, mpq_QSp
       int qst = 0;
       mpq_QSget_status(p, &qst);
       if (qst != QS_LP_INFEASIBLE) { r.fail("status-accessor", strprintf("call reported INFEASIBLE but QSget_status says %d", qst)); return; }
+      if (cfg.want_y && std::string(prop) == "C02") probe_infeasible_test(m, p, so.y, r);
     } else {
       // direct simplex: multipliers checked but only reported as a label (the property speaks of the exact solver)
       QArr pi(m.m());
